@@ -184,6 +184,21 @@ CLAIMED = {
             'Trusted: the .dat / quadtree writers and the independent elapsed-fraction computation in vh/drivers/c11.py. '
             'Lookups in tolerance bands are C01/C02 territory.',
             '5/C11'),
+    'C17': ('TLA+ spec of quadkey geometry on a dyadic square and of the recursive refinement (Quadtree.tla) model-checked by '
+            'TLC; every small case built with the real QuadtreeGrid2D and compared with TLC grids / lookup tables; for random '
+            'catalogs TLC reruns the refinement on exactly located events (TraceQuadtree)',
+            'TLC checks DisjointCover, SingleResolutionCovers (+ 4^z cells), PrefixFree, RefinementCriterion, LookupUnique and '
+            'EventsConserved for all catalogs of <=3 events on 10 corner / edge / interior points of the zoom-2 lattice (incl. '
+            'antimeridian and northern rim) x thresholds 0..2 x zooms 1..2 (6 666 states). Each case (<=2 events quick, <=3 '
+            'thorough) is built by from_catalog with exact tile-corner coordinates and the quadkey set and get_index_of at all '
+            '81 lattice points must equal TLC output. Single-resolution grids 1..6 (8 thorough) are compared bit for bit with '
+            'the closed Web-Mercator bounds, must contain each tile once, and their cell areas must add up to the latitude '
+            'band; the shipped California grid and random prefix-free quadkey sets are probed at corners / interiors; random '
+            'uniform / clustered / boundary-aligned catalogs x thresholds x zoom <= 8 are located on the zoom-8 half-tile '
+            'lattice and TLC accepts a returned grid only if it is exactly its own refinement.',
+            'Trusted: mercantile tile arithmetic (cross-checked against the closed formula), exact location of coordinates on '
+            'the zoom-8 lattice by float comparison with tile edges.',
+            '5/C17'),
 }
 
 NOT_YET = 'check not built yet in this round (specification planned in DESIGN.md section 5); not claimed until it exists'
